@@ -1069,3 +1069,7 @@ M('c13-lock-not-exclusive', 'C13', "            with open(lock_file, 'x'):\n    
 # ------------------------------------------------------------------------------------------------ C14 (round 2)
 M('c14-existing-from-source', 'C14', "            sorted_loose = sorted(self._list_loose())", "            sorted_loose = sorted(source_container._list_loose())", 'C14.R5')
 M('c14-read-from-self', 'C14', "        with source_container.get_objects_stream_and_meta(hashkeys) as triplets:", "        with self.get_objects_stream_and_meta(hashkeys) as triplets:", 'C14.R5')
+
+# ------------------------------------------------------------------------------------------------ C02 (duplicates handling in clean_storage)
+M('c02-dups-removed-when-primary-corrupt', 'C02', "            if computed_hash == reference_obj_hashkey:\n                # The object is in the repo", "            if computed_hash != reference_obj_hashkey:\n                # The object is in the repo", 'C02.R4')
+M('c02-unverified-duplicate-restored', 'C02', "                    if computed_hash == reference_obj_hashkey:\n                        # We found a duplicate", "                    if computed_hash:\n                        # We found a duplicate", 'C02.R4')
